@@ -16,11 +16,13 @@ Coverage of the statement (properties.jsonl C24), clause → theorem(s):
 * "… or if the write enabler does not match every existing share of that storage index" → `bad_enabler_no_effect`
       (any share of the bucket, named or not)
 * "its read results always reflect the data before the request" → `reads_are_pre_state`
-* shares not named by the request are untouched by its writes → `unnamed_shares_untouched_by_writes` (write phase;
-      the lease phase only visits named shares — by construction of `rem`, not stated as a theorem)
+* shares not named by the request are untouched → `unnamed_shares_untouched` (whole request: test, write and lease
+      phase, any outcome, both servers); write phase alone `unnamed_shares_untouched_by_writes`
 * write vectors applied in the order given → C23 `write_vectors_in_order` + `request_level_decision` (`Spec.evalWrites`)
-* not covered: `NoSpace` / `struct.error` raised by the lease renewal AFTER the writes (all writes are applied then;
-  stated in `all_or_nothing`); directory-listing order (only which error is reported depends on it).
+* an error raised by the lease renewal AFTER the writes (`NoSpace`, `struct.error`): covered by `all_or_nothing` /
+  `request_level_decision` — all writes are applied in that case (second disjunct), never a part of them.
+* not covered: directory-listing order (only WHICH error is reported for a bucket with both an unknown container and
+  a foreign enabler depends on it: `bad_enabler_no_effect` allows either).
 -/
 namespace Tahoe.C24
 open Tahoe.Base.File Tahoe.Storage Tahoe.Storage.Mutable Tahoe.Storage.Slot
@@ -184,6 +186,23 @@ example : Spec.evalTests [] [(3, { testv := [(0, 2, [7, 7])], datav := [(0, [1])
 theorem unnamed_shares_untouched_by_writes (nodeid we : Bytes) (b : Bucket) (tw : List (Nat × TW)) (n : Nat)
     (hn : n ∉ tw.map (·.1)) : lookup (evalWrites nodeid we b tw []).1 n = lookup b n :=
   evalWrites_untouched nodeid we tw b [] n hn
+
+/-- **shares the request does not name are untouched by the whole request** — test, write AND lease phase (the lease
+    renewal only visits the shares the request wrote, `evalWrites_rem_subset`): the file of every other share of the
+    storage index is byte-for-byte the same afterwards, whatever the outcome, on the repaired and the unrepaired server -/
+theorem unnamed_shares_untouched (env : Env) (b : Bucket) (we renew cancel : Bytes) (tw : List (Nat × TW))
+    (rv : List (Nat × Nat)) (rl : Bool) (n : Nat) (hn : n ∉ tw.map (·.1)) :
+    lookup (rtw env b we renew cancel tw rv rl).bucket n = lookup b n :=
+  rtw_untouched env b we renew cancel tw rv rl n hn
+
+set_option maxRecDepth 20000 in
+/-- non-vacuity: a request naming share 1 on a bucket that holds share 0; share 0's file is the same, share 1 appears -/
+example :
+    let env : Env := { h := id, nodeid := zeros 20, now := 5, avail := 1000, precheck := true }
+    let b : Bucket := [(0, create .v2 (zeros 20) (zeros 32))]
+    let r := rtw env b (zeros 32) (zeros 32) (zeros 32) [(1, { testv := [], datav := [(0, [9])], newLength := none })] [] true
+    lookup r.bucket 0 = lookup b 0 ∧ (lookup r.bucket 1).isSome = true ∧ r.err = none := by
+  decide
 
 /-- the storage index used by the negation witness: empty; the request names two new shares, the
     second with a write vector at offset `MAX_SIZE` -/
